@@ -719,7 +719,15 @@ class SSHChannel(Generic[AnyStr], SSHPacketHandler):
                                UInt32(self._recv_window),
                                UInt32(self._recv_pktsize), *args, handler=self)
 
-        return await self._open_waiter
+        packet = await self._open_waiter
+
+        if not self._conn:
+            # The connection was closed after the open confirmation arrived
+            # but before we were resumed, so this channel is already gone
+            raise ChannelOpenError(OPEN_CONNECT_FAILED,
+                                   'SSH connection closed')
+
+        return packet
 
     def send_packet(self, pkttype: int, *args: bytes) -> None:
         """Send a packet on the channel"""
